@@ -35,9 +35,8 @@ fn main() {
     }
     // a panic of code under test is data: silence the default hook output
     // (CWE_CONF_DEBUG / VERIF_PANIC_TRACE / VERIF_DEBUG keep the default hook, to debug the harness itself)
-    if std::env::var_os("CWE_CONF_DEBUG").is_none() && std::env::var("VERIF_PANIC_TRACE").is_err() && std::env::var("VERIF_DEBUG").is_err() {
-    // (set VERIF_SHOW_PANICS=1 to see them while developing a generator)
-    if std::env::var("VERIF_SHOW_PANICS").is_err() {
+    let keep_hook = ["CWE_CONF_DEBUG", "VERIF_PANIC_TRACE", "VERIF_DEBUG", "VERIF_SHOW_PANICS"].iter().any(|v| std::env::var_os(v).is_some());
+    if !keep_hook {
         std::panic::set_hook(Box::new(|_| {}));
     }
     let mut seed = 1u64;
